@@ -17,9 +17,11 @@ CONSTANTS
   Faults = {"ends", "dropped"}
   WrongKinds = {}
   MsgBudget = 4
+  InitSerial = 0
   ScriptSel = "lst"
   V0 = 20
   V1 = 20
+
 VIEW view
 INVARIANTS ObserverOk NoPanicSite BoundaryConsistent FlagsOk StoppedClean
 CHECK_DEADLOCK FALSE
